@@ -742,17 +742,27 @@ def _freeze(v):
 
 
 def class_consts(cls: ast.ClassDef) -> dict[str, object]:
+    """class-level names bound once to a literal (numbers, strings, tuples / lists / dicts of literals)"""
     out: dict[str, object] = {}
+    seen: dict[str, int] = {}
     for st in cls.body:
-        if isinstance(st, ast.Assign) and len(st.targets) == 1 and isinstance(st.targets[0], ast.Name) \
-                and isinstance(st.value, ast.Constant):
-            out[st.targets[0].id] = st.value.value
-            out[f'{cls.name}.{st.targets[0].id}'] = st.value.value
-        elif isinstance(st, ast.AnnAssign) and isinstance(st.target, ast.Name) \
-                and isinstance(st.value, ast.Constant):
-            out[st.target.id] = st.value.value
-            out[f'{cls.name}.{st.target.id}'] = st.value.value
-    return out
+        tgt = val = None
+        if isinstance(st, ast.Assign) and len(st.targets) == 1 and isinstance(st.targets[0], ast.Name):
+            tgt, val = st.targets[0].id, st.value
+        elif isinstance(st, ast.AnnAssign) and isinstance(st.target, ast.Name) and st.value is not None:
+            tgt, val = st.target.id, st.value
+        if tgt is None:
+            continue
+        seen[tgt] = seen.get(tgt, 0) + 1
+        try:
+            v = ast.literal_eval(val)
+        except (ValueError, SyntaxError, TypeError):
+            out.pop(tgt, None)
+            out.pop(f'{cls.name}.{tgt}', None)
+            continue
+        out[tgt] = v
+        out[f'{cls.name}.{tgt}'] = v
+    return {k: v for k, v in out.items() if seen.get(k.rsplit('.', 1)[-1]) == 1}
 
 
 def module_consts(tree: ast.Module) -> dict[str, object]:
